@@ -1,0 +1,55 @@
+//go:build verif
+
+package snappy
+
+// Machine-checked contracts (govc, see /verif/DESIGN.md). Comment-only file.
+
+//@ property C16
+
+//@ spec xrClean(x any) bool
+//@   macro
+//@   def len(x.input) == 0 && len(x.output) == 0 && x.offset == 0 && x.nbytes == 0 && (forall k :: 0 <= k && k < 16 ==> x.header[k] == 0)
+
+// Reset completeness: every field that is not configuration (decode) is back to its initial-state value, so what a pooled
+// reader decoded before cannot leak into the next stream.
+//@ func (*xerialReader).Reset
+//@   modifies x.reader, x.input, x.output, x.header, x.offset, x.nbytes
+//@   ensures xrClean(x) && x.reader == r
+//@   ensures unchanged(x.decode)
+
+//@ spec xwClean(x any) bool
+//@   macro
+//@   def len(x.input) == 0 && len(x.output) == 0 && x.nbytes == 0
+
+//@ func (*xerialWriter).Reset
+//@   modifies x.writer, x.input, x.output, x.nbytes
+//@   ensures xwClean(x) && x.writer == w
+//@   ensures unchanged(x.framed)
+
+//@ func align
+//@   requires n >= 0 && a > 0 && n <= 0x100000000 && a <= 0x100000000
+//@   ensures result >= n && result % a == 0 && result < n + a
+
+//@ func (*xerialWriter).full
+//@   pure
+//@   ensures result == (len(x.input) == cap(x.input))
+//@ func (*xerialWriter).fullEnough
+//@   pure
+//@   ensures result == (x.framed && cap(x.input) - len(x.input) < 1024)
+//@ func (*xerialWriter).grow
+//@   requires cap(x.input) >= 1 && cap(x.input) <= 0x10000000000
+//@   modifies x.input
+//@   ensures len(x.input) == old(len(x.input)) && cap(x.input) == 2 * old(cap(x.input)) && fresh(x.input)
+//@   ensures forall k :: 0 <= k && k < len(x.input) ==> x.input[k] == old(x.input[k])
+
+//@ func isXerialHeader
+//@   ensures result ==> len(src) >= 16 && src[0] == 130 && src[1] == 83 && src[2] == 78 && src[3] == 65 && src[4] == 80 && src[5] == 80 && src[6] == 89 && src[7] == 0
+//@ func writeXerialHeader
+//@   requires len(b) >= 16
+//@   modifies elems(b[0:16])
+//@   ensures b[0] == 130 && b[1] == 83 && b[2] == 78 && b[3] == 65 && b[4] == 80 && b[5] == 80 && b[6] == 89 && b[7] == 0
+//@   ensures b[8] == 0 && b[9] == 0 && b[10] == 0 && b[11] == 1 && b[12] == 0 && b[13] == 0 && b[14] == 0 && b[15] == 1
+//@ func writeXerialFrame
+//@   requires len(b) >= 4 && 0 <= n && n <= 0xffffffff
+//@   modifies elems(b[0:4])
+//@   ensures int(b[0])*16777216 + int(b[1])*65536 + int(b[2])*256 + int(b[3]) == n
